@@ -32,7 +32,7 @@ const rcLetters = "aAcCgGtTnN"
 func isUpperByte(b int64) bool { return b >= 'A' && b <= 'Z' }
 
 func rulesC12(c *Ctx, r *Report) {
-	r.explain("Decides: (T-COMP) the complement table after init is populated exactly at aAcCgGtTnN, is an involution, pairs A-T, C-G, N-N and preserves case, for all 256 entries, and nothing outside init writes it; (Z-PANIC) complementByte returns the table entry for exactly those ten bytes and panics for the other 246, by a 256-point transfer function over its CFG; (FLOW-RC) every byte ReverseComplement appends / ReverseComplementString writes is complementByte of an element of the source; (SIB4) both loops run from len-1 down to 0 in steps of 1; (PURE/APPEND-ONLY) src is never written, dst is only appended to; CanonicalSubsequences never writes seq. (CS-*) CanonicalSubsequences computes rc as ReverseComplement(fresh, seq), loops i = 0..len(seq)-k with no other exit than the consumer's stop, yields once per iteration the smaller (by bytes.Compare on the two whole windows, all three outcomes) of seq[i:i+k] and rc[len(rc)-i-k:len(rc)-i]. Not decided: that indexing from len-1 down to 0 is the reversal as an equality of sequences; strand symmetry as an equality. SIB4 is an index law: source index affine in a counted loop variable, first value len-1, step -1, loop runs exactly while the index is >= 0, no other exit.")
+	r.explain("Decides: (T-COMP) the complement table after init is populated exactly at aAcCgGtTnN, is an involution, pairs A-T, C-G, N-N and preserves case, for all 256 entries, and nothing outside init writes it; (Z-PANIC) complementByte returns the table entry for exactly those ten bytes and panics for the other 246, by a 256-point transfer function over its CFG; (FLOW-RC) every byte ReverseComplement appends / ReverseComplementString writes is complementByte of an element of the source; (SIB4) both loops run from len-1 down to 0 in steps of 1; (PURE/APPEND-ONLY) src is never written, dst is only appended to; CanonicalSubsequences never writes seq. (CS-*) CanonicalSubsequences computes rc as ReverseComplement(fresh, seq), loops i = 0..len(seq)-k with no other exit than the consumer's stop, yields once per iteration the smaller (by bytes.Compare on the two whole windows, all three outcomes) of seq[i:i+k] and rc[len(rc)-i-k:len(rc)-i]. Not decided: that indexing from len-1 down to 0 is the reversal as an equality of sequences; strand symmetry as an equality. SIB4 is an index law: source index affine in a counted loop variable, first value len-1, step -1, loop runs exactly while the index is >= 0, no other exit. (FLOW-RC, extended) ReverseComplementString returns exactly the bytes written: the builder's String(), the string of a slice grown by append from an empty one, or string(ReverseComplement(dst, []byte(s))) with len(dst) = 0 by the length algebra — a destination made with a length keeps that many zero bytes in front.")
 	r.assume("package initialisers run before any use; bytes are 8-bit")
 	g, tab, ok := rulesComplementTable(c, r)
 	if !ok {
